@@ -38,6 +38,8 @@ type threadCtx struct {
 	usedT    bool
 	usedE    bool
 	more     []*threadCtx // further `if`s that follow immediately and test another result of the same call
+	tailRet  *ast.ReturnStmt // the statement after the call (and prefix) is a return: it is taken at every return site
+	usedRet  bool
 	prefix   []ast.Stmt   // simple statements between the call and the first `if` (run, in order, before it at every return site)
 	usedPfx  bool
 }
@@ -135,6 +137,47 @@ func (in *inliner) rewriteThreaded(list []ast.Stmt, i int, fd *ast.FuncDecl, fil
 		break
 	}
 	if j0 >= len(list) {
+		return nil, 0, false
+	}
+	// `v, err := h(x); return v, err` (possibly reordered or partly discarded): the return is taken at every return site
+	if rs, isRet := list[j0].(*ast.ReturnStmt); isRet && !containsFuncLit(rs) && in.containsCallTo(rs, c) == nil {
+		th := &threadCtx{tailRet: rs, prefix: prefix, testIdx: 0}
+		for _, l := range as.Lhs {
+			id, ok := l.(*ast.Ident)
+			if !ok {
+				return nil, 0, false
+			}
+			name, decl := id.Name, false
+			if name == "_" {
+				name, decl = "", true
+			} else if as.Tok == token.DEFINE && in.info.Defs[id] != nil {
+				decl = true
+			}
+			var declId *ast.Ident
+			if name != "" {
+				if o := in.info.Defs[id]; o != nil {
+					if decl {
+						declId = id
+					}
+					in.nameObj[name] = o
+				} else if o := in.info.Uses[id]; o != nil {
+					in.nameObj[name] = o
+				}
+			}
+			th.resNames = append(th.resNames, name)
+			th.declare = append(th.declare, decl)
+			th.resIdents = append(th.resIdents, declId)
+		}
+		for _, ps := range prefix {
+			if in.containsCallTo(ps, c) != nil {
+				return nil, 0, false
+			}
+		}
+		if repl, ok := in.expandT(ce, as, as.Tok, fd, file, c, th); ok {
+			// nothing follows a return; keep the type checker's "missing return" quiet
+			repl = append(repl, &ast.ExprStmt{X: &ast.CallExpr{Fun: ast.NewIdent("panic"), Args: []ast.Expr{&ast.BasicLit{Kind: token.STRING, Value: `"unreachable"`}}}})
+			return repl, 2 + len(prefix), true
+		}
 		return nil, 0, false
 	}
 	ifs, ok := list[j0].(*ast.IfStmt)
@@ -544,6 +587,9 @@ func (in *inliner) threadedReturnRewriter(th *threadCtx, res []string, named []s
 		}
 		// outcomes are judged on the returned expressions before they are moved into the assignment
 		chain := append([]*threadCtx{th}, th.more...)
+		if th.tailRet != nil {
+			chain = nil
+		}
 		ocs := make([]int, len(chain))
 		for k, t := range chain {
 			ocs[k] = -1
@@ -582,6 +628,15 @@ func (in *inliner) threadedReturnRewriter(th *threadCtx, res []string, named []s
 				}
 				out = append(out, &ast.IfStmt{Cond: cond, Body: takeBody(t), Else: takeElse(t)})
 			}
+		}
+		if th.tailRet != nil {
+			if !th.usedRet {
+				th.usedRet = true
+				out = append(out, th.tailRet)
+			} else {
+				out = append(out, copyNode(th.tailRet, nil, in.info).(ast.Stmt))
+			}
+			return out
 		}
 		if !isLast {
 			*used = true
